@@ -107,13 +107,23 @@ func readAllSeq(path string, bufSize int, direct bool, limit int) []recOut {
 	if err := r.Open(); err != nil {
 		return []recOut{{Err: "Open:" + classifyErr(err)}}
 	}
-	var out []recOut
+	// returned slices are retained and copied only after the last read (detects reused buffers)
+	var raw [][]byte
+	var last error
 	for i := 0; i < limit; i++ {
 		b, err := r.ReadNext()
-		out = append(out, mkRec(b, err, false))
 		if err != nil {
+			last = err
 			break
 		}
+		raw = append(raw, b)
+	}
+	var out []recOut
+	for _, b := range raw {
+		out = append(out, mkRec(b, nil, false))
+	}
+	if last != nil {
+		out = append(out, mkRec(nil, last, false))
 	}
 	return out
 }
